@@ -734,10 +734,17 @@ impl<'a> Parser<'a> {
             let op = self.current().clone();
             self.next()?;
 
-            let mut rhs = self.parse_unary_operator()?;
-            if token_precedence < self.get_token_precedence()? {
-                rhs = self.parse_binary_operator_rhs(token_precedence + 1, rhs)?;
-            }
+            let rhs = if op == Token::LeftSquareParentheses {
+                // The index is a complete expression, delimited by the closing bracket
+                self.parse_expression_internal()?
+            } else {
+                let mut rhs = self.parse_unary_operator()?;
+                if token_precedence < self.get_token_precedence()? {
+                    rhs = self.parse_binary_operator_rhs(token_precedence + 1, rhs)?;
+                }
+
+                rhs
+            };
 
             match op {
                 Token::Operator(Operator::Single('.')) => {
@@ -828,14 +835,14 @@ impl<'a> Parser<'a> {
                     None => Err(self.create_error(ParserErrorType::NotDefinedBinaryOperator(op.clone())))
                 }
             }
-            Token::DoubleColon => Ok(7),
-            Token::Keyword(Keyword::Is) => Ok(2),
-            Token::Keyword(Keyword::IsNot) => Ok(2),
-            Token::Keyword(Keyword::In) => Ok(2),
-            Token::Keyword(Keyword::NotIn) => Ok(2),
-            Token::Keyword(Keyword::And) => Ok(1),
+            Token::DoubleColon => Ok(8),
+            Token::Keyword(Keyword::Is) => Ok(4),
+            Token::Keyword(Keyword::IsNot) => Ok(4),
+            Token::Keyword(Keyword::In) => Ok(4),
+            Token::Keyword(Keyword::NotIn) => Ok(4),
+            Token::Keyword(Keyword::And) => Ok(2),
             Token::Keyword(Keyword::Or) => Ok(1),
-            Token::LeftSquareParentheses => Ok(1),
+            Token::LeftSquareParentheses => Ok(8),
             _ => Ok(-1)
         }
     }
@@ -952,7 +959,15 @@ impl<'a> Parser<'a> {
             _ => {}
         };
 
+        // A unary operator applies to everything that binds tighter than itself:
+        // NOT (3) to comparisons and arithmetic, unary minus (7) to casts, subscripts and qualified names.
+        let operand_precedence = match op_token {
+            Token::Keyword(Keyword::Not) => 4,
+            _ => 8
+        };
+
         let operand = self.parse_unary_operator()?;
+        let operand = self.parse_binary_operator_rhs(operand_precedence, operand)?;
         match op_token {
             Token::Operator(op) => {
                 if !self.unary_operators.exists(&op) {
